@@ -788,6 +788,21 @@ struct Child
                 w.key("set").num((long long)UTAP::tracker.position);
             } else if (s.op == "drop") {
                 docs.erase(atoi(s.args.at(0).c_str()));
+            } else if (s.op == "remove_process") {
+                // args: slot name ; the public Document::remove_process on the process of that name
+                Document& d = doc(atoi(s.args.at(0).c_str()), false);
+                bool done = false;
+                for (auto& p : d.get_processes())
+                    if (p.uid.get_name() == s.args.at(1)) {
+                        d.remove_process(p);
+                        done = true;
+                        break;
+                    }
+                w.key("removed").boolean(done);
+                w.key("processes").arr();
+                for (auto& p : d.get_processes())
+                    w.str(p.uid.get_name());
+                w.end();
             } else if (s.op == "crash_selftest") {
                 // used only by the harness self test: prove that a memory error is reported
                 volatile int* p = new int[2];
